@@ -161,6 +161,7 @@ func init() {
 			{Name: "numeric-boundaries", N: c02NumBoundN, Run: c02NumBound, Exhaustive: true},
 			{Name: "case-mapping", N: casedN, Run: c02CaseMap, Exhaustive: true},
 			{Name: "to_string-roundtrip", N: tsN, Run: tsRun, Exhaustive: true},
+			{Name: "trim-edges", N: trimN, Run: c02TrimEdges, Exhaustive: true},
 		},
 	})
 }
